@@ -16,8 +16,10 @@
 #define _GNU_SOURCE
 #include "vpeer.h"
 #include "vs.h"
+#include <arpa/inet.h>
 #include <errno.h>
 #include <fcntl.h>
+#include <netinet/in.h>
 #include <pthread.h>
 #include <stdlib.h>
 #include <string.h>
@@ -1454,6 +1456,125 @@ run_s7(void *arg)
 	vh_fini();
 }
 
+// ---- S8: connections that die before the listener has done anything with them ------------------
+// tcp / ipc listener (PULL or REP); k raw connections each connect and vanish - orderly or with a
+// reset (SO_LINGER 0), before the library has run at all or right after it accepted, with none,
+// part or all of the handshake written - so the library's first operation on the new connection
+// fails with whatever the platform reports for that (EPIPE, ECONNRESET, end of file).  Whatever the
+// code: the listener keeps accepting - an honest nng peer that dials afterwards reaches ADD_POST,
+// its message is delivered, and the pipe gets its REM_POST at close.
+enum { EL_CLOSE_NOW, EL_RESET_NOW, EL_CLOSE_LATER, EL_RESET_LATER, EL_PART_CLOSE, EL_FULL_RESET, EL_N };
+static const char *ELN[] = { "close-at-once", "reset-at-once", "close-after-accept",
+	"reset-after-accept", "partial-handshake-close", "handshake-then-reset" };
+static void
+run_s8(void *arg)
+{
+	int          tran = (int) (intptr_t) arg & 1; // 0 tcp, 1 ipc
+	int          rep  = ((int) (intptr_t) arg >> 1) & 1;
+	nng_socket   a, b;
+	nng_listener l;
+	char         url[200], path[160] = "";
+	int          port = 0;
+	vs_tcp_grace_us = 1500;
+	vh_init(0);
+	ledger_reset();
+	if (rep)
+		VH_OK(nng_rep0_open(&a));
+	else
+		VH_OK(nng_pull0_open(&a));
+	watch(0, a);
+	VH_OK(nng_socket_set_ms(a, NNG_OPT_RECVTIMEO, 100));
+	if (tran == 0) {
+		VH_OK(nng_listen(a, "tcp://127.0.0.1:0", &l, 0));
+		VH_OK(nng_listener_get_int(l, NNG_OPT_BOUND_PORT, &port));
+		snprintf(url, sizeof(url), "tcp://127.0.0.1:%d", port);
+	} else {
+		snprintf(path, sizeof(path), "%s/c14s8-%d", vx_rundir(), (int) getpid());
+		snprintf(url, sizeof(url), "ipc://%s", path);
+		VH_OK(nng_listen(a, url, &l, 0));
+	}
+	vs_settle();
+	int mode = vs_choose(VK_ENV, EL_N);
+	int k    = vs_choose(VK_ENV, 2) ? 3 : 1;
+	int nb   = mode == EL_PART_CLOSE ? 1 + vs_choose(VK_ENV, 7) : 0;
+	uint16_t pp = rep ? SP_REQ : SP_PUSH;
+	for (int i = 0; i < k; i++) {
+		int fd;
+		if (tran == 0) {
+			struct sockaddr_in sa;
+			memset(&sa, 0, sizeof(sa));
+			sa.sin_family      = AF_INET;
+			sa.sin_port        = htons((uint16_t) port);
+			sa.sin_addr.s_addr = htonl(INADDR_LOOPBACK);
+			fd                 = socket(AF_INET, SOCK_STREAM, 0);
+			if (connect(fd, (struct sockaddr *) &sa, sizeof(sa)) != 0)
+				vs_fail("harness:peer", "tcp connect: %s", strerror(errno));
+		} else {
+			struct sockaddr_un sa;
+			memset(&sa, 0, sizeof(sa));
+			sa.sun_family = AF_UNIX;
+			snprintf(sa.sun_path, sizeof(sa.sun_path), "%s", path);
+			fd = socket(AF_UNIX, SOCK_STREAM, 0);
+			if (connect(fd, (struct sockaddr *) &sa, sizeof(sa)) != 0)
+				vs_fail("harness:peer", "ipc connect: %s", strerror(errno));
+		}
+		uint8_t       h[8] = { 0, 'S', 'P', 0, (uint8_t) (pp >> 8), (uint8_t) pp, 0, 0 };
+		struct linger lg   = { .l_onoff = 1, .l_linger = 0 };
+		if (mode == EL_CLOSE_LATER || mode == EL_RESET_LATER)
+			vs_settle();
+		if (mode == EL_PART_CLOSE && write(fd, h, (size_t) nb) != nb)
+			vs_fail("harness:peer", "write");
+		if (mode == EL_FULL_RESET && write(fd, h, 8) != 8)
+			vs_fail("harness:peer", "write");
+		if (mode == EL_RESET_NOW || mode == EL_RESET_LATER || mode == EL_FULL_RESET)
+			setsockopt(fd, SOL_SOCKET, SO_LINGER, &lg, sizeof(lg));
+		close(fd);
+	}
+	vs_settle();
+	vs_nontrivial();
+	int nposts = count_ev(0, NNG_PIPE_EV_ADD_POST);
+	// the honest peer
+	if (rep)
+		VH_OK(nng_req0_open(&b));
+	else
+		VH_OK(nng_push0_open(&b));
+	VH_OK(nng_socket_set_ms(b, NNG_OPT_SENDTIMEO, 100));
+	VH_OK(nng_socket_set_ms(b, NNG_OPT_RECONNMINT, 10));
+	VH_OK(nng_socket_set_ms(b, NNG_OPT_RECONNMAXT, 10));
+	VH_OK(nng_dial(b, url, NULL, NNG_FLAG_NONBLOCK));
+	vs_settle();
+	vs_sleep(250); // one accept cool-down (100 ms) is allowed
+	vs_settle();
+	char ha[80];
+	ledger_summary(0, ha, sizeof(ha));
+	if (count_ev(0, NNG_PIPE_EV_ADD_POST) != nposts + 1)
+		vs_fail("C14:listener-stopped-accepting",
+		    "%s %s listener: after %d connection(s) that %s%s an honest peer dialed; 250 ms "
+		    "later the listening socket has no new ADD_POST (events %s)",
+		    tran ? "ipc" : "tcp", rep ? "REP" : "PULL", k, ELN[mode],
+		    nb ? " (partial)" : "", ha);
+	if (vh_send_nb(b, "honest", 6) != 0)
+		vs_fail("C14:listener-stopped-accepting", "the honest peer cannot send");
+	vs_settle();
+	nng_msg *m  = NULL;
+	int      rv = nng_recvmsg(a, &m, 0);
+	if (rv != 0 || nng_msg_len(m) != 6)
+		vs_fail("C14:listener-stopped-accepting",
+		    "%s listener after %d x %s: the honest peer's message was not delivered (%s)",
+		    tran ? "ipc" : "tcp", k, ELN[mode], nng_strerror(rv));
+	nng_msg_free(m);
+	nng_socket_close(b);
+	close_sock(0);
+	vs_settle();
+	vs_sleep(20);
+	vs_settle();
+	ledger_final();
+	vs_outcome("%s x%d", ELN[mode], k);
+	if (path[0])
+		unlink(path);
+	vh_fini();
+}
+
 // ---- driver --------------------------------------------------------------------
 static void
 explore(const char *name, void (*fn)(void *), void *arg, int p, int sw, int t,
@@ -1527,6 +1648,11 @@ main(int argc, char **argv)
 				explore(strdup(name), run_s7, &s7[n7], 0, 0, 0, 0);
 				n7++;
 			}
+	}
+	for (int v = 0; v < 4; v++) {
+		snprintf(name, sizeof(name), "S8-early-loss-%s-%s", (v & 1) ? "ipc" : "tcp",
+		    (v & 2) ? "rep" : "pull");
+		explore(strdup(name), run_s8, (void *) (intptr_t) v, 0, 0, 0, 0);
 	}
 	static s4arg s4[] = { { 0 }, { 1 }, { 2 } };
 	static const char *s4n[] = { "S4-accept-pair0", "S4-accept-pull",
